@@ -41,7 +41,8 @@ def _vg_nf(rng, name, gmin, gmax):
 
 
 BANDS = [None, None, None, None, (191.275e12, 196.125e12), (191.3e12, 196.1e12), (191.35e12, 196.0e12),
-         (192.0e12, 195.0e12), (186.0e12, 190.0e12), (191.0e12, 196.5e12)]
+         (192.0e12, 195.0e12), (186.0e12, 190.0e12), (191.0e12, 196.5e12),
+         (191.275e12, 193.4e12), (191.0e12, 192.2e12)]          # reduced upper edge only
 
 
 def gen_amp(rng, name, twin_of=None):
@@ -437,12 +438,337 @@ def term_b(recs, views, roadm_lib, maxl):
             f"{listlit([call_b(r, roadm_lib) for r in recs])}")
 
 
+# ------------------------------------------------------------------ stream C: multiband nodes through auto-design
+CBAND = (191.25e12, 196.15e12)
+LBAND = (186.55e12, 190.05e12)
+
+
+def gen_case_c(rng):
+    """two-band (C+L) unidirectional line of Multiband_amplifier nodes; library of C and L single-band models (twins,
+    Raman flags) grouped into 2-6 multiband models that share members; restrictions at node / ROADM level"""
+    from . import c09
+
+    def single(name, band):
+        for _ in range(30):
+            e = gen_amp(rng, name)
+            if e['type_def'] in ('variable_gain', 'fixed_gain'):
+                break
+        if rng.random() < 0.75:
+            e.pop('raman', None)
+        e['f_min'], e['f_max'] = band
+        return e
+    cs = [single(f'c{i}', CBAND) for i in range(rng.randint(2, 5))]
+    ls = [single(f'l{i}', LBAND) for i in range(rng.randint(2, 4))]
+    for g in (cs, ls):
+        if rng.random() < 0.5:
+            t = copy.deepcopy(rng.choice(g))
+            t['type_variety'] += 't'
+            g.append(t)
+    lib = cs + ls
+    groups = []
+    for k in range(rng.randint(2, 6)):
+        mem = [rng.choice(cs)['type_variety'], rng.choice(ls)['type_variety']]
+        if rng.random() < 0.08:
+            mem = mem[:1]
+        if rng.random() < 0.3:
+            mem.reverse()
+        groups.append({'type_variety': f'm{k}', 'type_def': 'multi_band', 'amplifiers': mem,
+                       'allowed_for_design': rng.random() < 0.65})
+    for g in groups:
+        lib.insert(rng.randint(0, len(lib)), g)
+    span = c09.gen_span(rng)
+    if len(span['delta_power_range_db']) < 3:
+        span['delta_power_range_db'] = [-2, 3, 0.5]
+    si = c09.gen_si(rng)
+    si['f_min'] = 191.3e12
+    si['f_max'] = 191.3e12 + rng.choice([8, 20, 40]) * si['spacing']
+    gnames = [g['type_variety'] for g in groups]
+    roadm = [{'target_pch_out_db': rng.choice([-20, -18, -22]), 'add_drop_osnr': 38, 'pmd': 0, 'pdl': 0,
+              'restrictions': {'preamp_variety_list': rng.sample(gnames, 1) if rng.random() < 0.2 else [],
+                               'booster_variety_list': rng.sample(gnames, rng.choice([1, 2])) if rng.random() < 0.2 else []}}]
+    n = rng.randint(1, 3)
+    chain = ['trx A', 'roadm A', 'mb 0']
+    els = []
+    for i in range(n):
+        chain += [f'fiber {i}', f'mb {i + 1}']
+        els.append({'uid': f'fiber {i}', 'type': 'Fiber', 'type_variety': 'SSMF',
+                    'params': {'length': round(rng.uniform(25, 120), 1), 'loss_coef': rng.choice([0.2, 0.21, 0.26]),
+                               'length_units': 'km', 'con_in': 0, 'con_out': 0}})
+    chain += ['roadm B', 'trx B']
+    for i in range(n + 1):
+        e = {'uid': f'mb {i}', 'type': 'Multiband_amplifier'}
+        if rng.random() < 0.2:
+            e['variety_list'] = rng.sample(gnames, rng.choice([1, 2]))
+        els.append(e)
+    bands = [{'f_min': 191.3e12, 'f_max': 196.0e12}, {'f_min': rng.choice([187.0e12, 186.6e12]), 'f_max': 190.0e12}]
+    els += [{'uid': 'trx A', 'type': 'Transceiver'}, {'uid': 'trx B', 'type': 'Transceiver'},
+            {'uid': 'roadm A', 'type': 'Roadm', 'params': {'per_degree_design_bands': {'mb 0': bands}}},
+            {'uid': 'roadm B', 'type': 'Roadm'}]
+    topo = {'elements': els, 'connections': [{'from_node': a, 'to_node': b} for a, b in zip(chain[:-1], chain[1:])]}
+    return {'kind': 'C', 'seed': rng.getrandbits(32), 'edfa': lib, 'span': span, 'si': si, 'roadm': roadm, 'topo': topo}
+
+
+def drive_c(case):
+    """auto-design with get_node_restrictions / preselect_multiband_amps / filter_edfa_list_based_on_targets /
+    select_edfa wrapped; one record per Multiband_amplifier node"""
+    from . import c09
+    import gnpy.core.network as nw
+    from gnpy.tools.worker_utils import designed_network
+    built = c09.build_case(case)
+    obs = []
+    state = {'in_presel': False}
+    o_r, o_p, o_f, o_s = nw.get_node_restrictions, nw.preselect_multiband_amps, \
+        nw.filter_edfa_list_based_on_targets, nw.select_edfa
+
+    def w_r(node, prev_node, next_node, equipment, design_bands):
+        res = o_r(node, prev_node, next_node, equipment, design_bands)
+        if type(node).__name__ == 'Multiband_amplifier':
+            obs.append({'uid': node.uid, 'node': node, 'variety': node.params.type_variety or '',
+                        'vlist': list(node.variety_list) if isinstance(node.variety_list, list) else [],
+                        'prev': prev_node, 'next': next_node,
+                        'bands': [(k, float(b['f_min']), float(b['f_max'])) for k, b in design_bands.items()],
+                        'mr': list(res), 'presel_calls': [], 'sel': []})
+        return res
+
+    def w_p(*a, **k):
+        state['in_presel'] = True
+        try:
+            res = o_p(*a, **k)
+        finally:
+            state['in_presel'] = False
+        if obs:
+            obs[-1]['presel'] = list(res)
+        return res
+
+    def w_f(uid, edfa_eqpt, power_target, gain_target, tilt_target, target_extended_gain, *a, **k):
+        res = o_f(uid, edfa_eqpt, power_target, gain_target, tilt_target, target_extended_gain, *a, **k)
+        if state['in_presel'] and obs:
+            obs[-1]['presel_calls'].append({'gain': float(gain_target), 'power': float(power_target),
+                                            'cands': list(edfa_eqpt), 'result': [x.variety for x in res]})
+        return res
+
+    def w_s(raman_allowed, gain_target, power_target, edfa_eqpt, uid, target_extended_gain, verbose=True):
+        rec = None
+        if obs and obs[-1]['uid'] == uid:
+            rec = {'ra': bool(raman_allowed), 'gain': float(gain_target), 'power': float(power_target),
+                   'ext': float(target_extended_gain), 'cands': list(edfa_eqpt)}
+            obs[-1]['sel'].append(rec)
+        try:
+            out = o_s(raman_allowed, gain_target, power_target, edfa_eqpt, uid, target_extended_gain, verbose)
+        except Exception as e:
+            if rec is not None:
+                rec['out'] = f'E:{type(e).__name__}'
+            raise
+        if rec is not None:
+            rec['out'] = (out[0], float(out[1]))
+        return out
+    nw.get_node_restrictions, nw.preselect_multiband_amps = w_r, w_p
+    nw.filter_edfa_list_based_on_targets, nw.select_edfa = w_f, w_s
+    status = 'ok'
+    try:
+        try:
+            designed_network(built['equipment'], built['network'], no_insert_edfas=True)
+        except Exception as e:
+            status = f'E:{type(e).__name__}'
+            built['exc'] = str(e)[:200]
+    finally:
+        nw.get_node_restrictions, nw.preselect_multiband_amps = o_r, o_p
+        nw.filter_edfa_list_based_on_targets, nw.select_edfa = o_f, o_s
+    for rec in obs:
+        rec['final_type'] = rec['node'].type_variety if status == 'ok' else None
+        rec.pop('node')
+    return built, obs, status
+
+
+def group_views(case):
+    return [{'name': e['type_variety'], 'allowed': bool(e.get('allowed_for_design', False)), 'members': list(e['amplifiers'])}
+            for e in case['edfa'] if e['type_def'] == 'multi_band']
+
+
+def term_c(built, case, obs, views):
+    span = case['span']
+    groups = listlit([f"grp {strlit(g['name'])} {'true' if g['allowed'] else 'false'} {slist(g['members'])}"
+                      for g in group_views(case)])
+    calls = []
+    for rec in obs:
+        bts = []
+        for k, (bn, lo, hi) in enumerate(rec['bands']):
+            src = rec['sel'][k] if k < len(rec['sel']) else (rec['presel_calls'][k] if k < len(rec['presel_calls']) else None)
+            gain, power = (src['gain'], src['power']) if src else (0.0, 0.0)
+            nfs = listlit([f"nfv {strlit(v['name'])} {qlit(nf_of(gain, built['equipment']['Edfa'][v['name']]))}"
+                           for v in views if not v['multi'] and v['f_min'] <= lo and v['f_max'] >= hi]) if src else '[]'
+            bts.append(f"bt {qlit(lo)} {qlit(hi)} {qlit(gain)} {qlit(power)} {nfs}")
+        calls.append(f"mcall (mkNode {strlit(rec['variety'])} {slist(rec['vlist'])}) "
+                     f"{neigh_lit(rec['pv'], built['roadm_lib'])} {neigh_lit(rec['nv'], built['roadm_lib'])} {listlit(bts)}")
+    return (f"run_multis {listlit([amq_lit(v) for v in views])} {groups} "
+            f"{qlit(float(span['max_fiber_lineic_loss_for_raman']) * 1e-3)} {qlit(float(span['target_extended_gain']))} "
+            f"{listlit(calls)}")
+
+
+def eff_list(nv, roadm_lib, key):
+    el = nv['elem']
+    if el is not None and key in el:
+        return el[key]
+    return roadm_lib.get(nv['variety'], {}).get(key, [])
+
+
+def oracle_picks_c(ctx, rec, picks, built, case, views, groups, permitted, byname, ext, cov, uid):
+    eq = built['equipment']['Edfa']
+    ra = rec['sel'][0]['ra']
+    targets = [(s_['gain'], s_['power']) for s_ in rec['sel']]
+
+    def capable_member(g, k):
+        """the members of multiband model g usable for band k (None: a margin within 1e-9 of 0)"""
+        _, lo, hi = rec['bands'][k]
+        out = []
+        for t in g['members']:
+            v = byname[t]
+            if v['multi'] or not cov(t, lo, hi) or (v['raman'] and not ra):
+                continue
+            pw, gm = margins(v, targets[k][0], targets[k][1], ext)
+            if abs(pw) <= TOL or abs(gm) <= TOL:
+                return None
+            if pw > 0 and gm > 0:
+                out.append(t)
+        return out
+    cap_all = []
+    for g in groups:
+        if g['name'] not in permitted:
+            continue
+        per = [capable_member(g, k) for k in range(len(rec['bands']))]
+        if any(x is None for x in per):
+            ctx.count('C_oracle_not_judged_tie')
+            return
+        if all(per):
+            cap_all.append((g, per))
+    perm_members = {t for g in groups if g['name'] in permitted for t in g['members']}
+    # models reachable from the permitted ones through shared member entries (the path of finding F-multiband-leak)
+    reach = set(permitted)
+    changed = True
+    while changed:
+        changed = False
+        mem = {t for g in groups if g['name'] in reach for t in g['members']}
+        for g in groups:
+            if g['name'] not in reach and mem & set(g['members']):
+                reach.add(g['name'])
+                changed = True
+    reach_members = {t for g in groups if g['name'] in reach for t in g['members']}
+    for k, (name, red) in enumerate(picks):
+        ctx.count('C_band_picks')
+        if name not in perm_members:
+            ctx.violation('multi_pick_not_permitted', f"{uid} band {rec['bands'][k][0]}: {name} belongs to no permitted "
+                          f"multiband model {permitted}", case, leak=bool(permitted) and name in reach_members)
+        if cap_all:
+            ctx.count('C_band_picks_with_capable_model')
+            v = byname[name]
+            pw, gm = margins(v, targets[k][0], targets[k][1], ext)
+            nf_pick = nf_of(targets[k][0], eq[name])
+            if not (pw > 0 and gm > 0) or (v['raman'] and not ra):
+                ctx.violation('multi_not_capable', f"{uid} band {rec['bands'][k][0]}: {name} is not capable although "
+                              f"{[g['name'] for g, _ in cap_all]} are capable in every band", case)
+            best = min(nf_of(targets[k][0], eq[t]) for g, per in cap_all for t in per[k])
+            if nf_pick > best + 1e-12:
+                ctx.violation('multi_not_quietest', f"{uid} band {rec['bands'][k][0]}: {name} NF {nf_pick} although a permitted "
+                              f"model capable in every band offers NF {best}", case)
+    if rec['final_type'] is not None and rec['final_type'] not in permitted:
+        ctx.violation('multi_type_not_permitted', f"{uid}: designed type_variety {rec['final_type']} is not a permitted "
+                      f"multiband model {permitted}", case, leak=bool(permitted) and rec['final_type'] in reach)
+
+
+def judge_c(ctx, rec, line, built, case_json, views, status, last):
+    """one Multiband_amplifier node: oracle on the implementation's observations + correspondence with the model"""
+    case = case_json
+    span = case['span']
+    ext = float(span['target_extended_gain'])
+    byname = {v['name']: v for v in views}
+    groups = group_views(case)
+    uid = rec['uid']
+    # ---- independent permitted set
+    r = []
+    if rec['vlist']:
+        r = rec['vlist']
+    elif rec['pv']['kind'] == 'roadm' and eff_list(rec['pv'], built['roadm_lib'], 'booster_variety_list'):
+        r = eff_list(rec['pv'], built['roadm_lib'], 'booster_variety_list')
+    elif rec['nv']['kind'] == 'roadm' and eff_list(rec['nv'], built['roadm_lib'], 'preamp_variety_list'):
+        r = eff_list(rec['nv'], built['roadm_lib'], 'preamp_variety_list')
+
+    def cov(n, lo, hi):
+        return byname[n]['f_min'] <= lo and byname[n]['f_max'] >= hi
+    permitted = [g['name'] for g in groups if (g['name'] in r or (not r and g['allowed']))
+                 and all(any(cov(t, lo, hi) for _, lo, hi in rec['bands']) for t in g['members'])]
+    if rec['mr'] != permitted:
+        ctx.violation('multi_permitted_set', f"{uid}: get_node_restrictions {rec['mr']} != permitted multiband models {permitted}",
+                      case)
+    # ---- oracle on the picks (all bands selected)
+    picks = [s_['out'] for s_ in rec['sel'] if 'out' in s_ and not isinstance(s_['out'], str)]
+    full = len(picks) == len(rec['bands'])
+    if full:
+        oracle_picks_c(ctx, rec, picks, built, case, views, groups, permitted, byname, ext, cov, uid)
+    # ---- model
+    parts = line.split('#')
+    mod_mr = [x for x in parts[0].split(',') if x]
+    if mod_mr != rec['mr']:
+        ctx.corr_break('corr:Select.multi_restrictions', uid, case, impl=rec['mr'], model=mod_mr)
+    aborted = status != 'ok' and last
+    if parts[1].startswith('E:'):
+        body, pc = parts[1][2:].rsplit('|', 1)
+        if float(parse_q(pc)) < TOL:
+            ctx.count('C_not_judged_threshold_tie')
+            return
+        if not aborted or status != 'E:' + body.split(':')[0] or 'presel' in rec:
+            ctx.corr_break('corr:Select.preselect', f"{uid}: model raises {body}, implementation {status}", case,
+                           impl=rec.get('presel'), model=parts[1])
+        else:
+            ctx.count('C_preselection_error_agreed')
+        return
+    mod_redfa, pc, mod_sel, mod_common = parts[1:5]
+    if float(parse_q(pc)) < TOL:
+        ctx.count('C_not_judged_threshold_tie')
+        return
+    if 'presel' not in rec:
+        ctx.corr_break('corr:Select.preselect', f"{uid}: implementation raised {status} in the preselection, model did not",
+                       case, model=mod_redfa)
+        return
+    if sorted(set(rec['presel'])) != sorted(x for x in mod_redfa.split(',') if x):
+        ctx.corr_break('corr:Select.preselect', uid, case, impl=sorted(set(rec['presel'])), model=mod_redfa)
+        return
+    msel = [parse_sel(x) for x in mod_sel.split('&') if x]
+    for k, srec in enumerate(rec['sel']):
+        if k >= len(msel):
+            ctx.corr_break('corr:Select.band_select', f"{uid} band {k}: no model result", case)
+            return
+        if msel[k][2] < TOL:
+            ctx.count('C_not_judged_threshold_tie')
+            return
+        if k < len(rec['presel_calls']) and (abs(rec['presel_calls'][k]['gain'] - srec['gain']) > TOL or
+                                             abs(rec['presel_calls'][k]['power'] - srec['power']) > TOL):
+            ctx.corr_break('corr:Select.preselect_targets', f"{uid} band {k}: preselection and selection use different targets",
+                           case, impl=[rec['presel_calls'][k]['gain'], srec['gain']])
+        d = compare_sel(srec.get('out', 'E:?'), msel[k])
+        if d:
+            ctx.corr_break('corr:Select.band_select', f"{uid} band {k}: {d}", case, impl=srec.get('out'), model=mod_sel)
+            return
+    if rec['final_type'] is not None and rec['final_type'] not in [x for x in mod_common.split(',') if x]:
+        ctx.corr_break('corr:Select.common_groups', f"{uid}: type_variety {rec['final_type']}", case,
+                       impl=rec['final_type'], model=mod_common)
+
+
+
 def slist(xs):
     return listlit([strlit(x) + '%string' for x in xs])
 
 
 def strip(c):
     return {k: v for k, v in c.items() if not k.startswith('_')}
+
+
+def is_multiband_leak(v):
+    """open finding C10/F-multiband-leak: a multiband model outside the permitted set, reached from a permitted one
+    through a shared member entry (find_type_varieties scans the whole library), supplies the pick / the type"""
+    return v.get('key') in ('multi_pick_not_permitted', 'multi_type_not_permitted') and bool(v.get('leak'))
+
+
+MATCHERS = {'F-multiband-leak': is_multiband_leak}
 
 
 def run(ctx):
@@ -453,7 +779,10 @@ def run(ctx):
                 'variable/fixed gain, OpenROADM, advanced, Raman-flagged, twins with equal NF, aliases, band-limited, '
                 'multiband groupings) x random / near-limit / gridded (gain, power, extended gain, raman_allowed) targets; '
                 '(B) every amplifier node of auto-designed random networks (restrictions at amplifier, ROADM element and '
-                'ROADM library level, fibre loss coefficients around the Raman limit). A case is non-trivial when the '
+                'ROADM library level, fibre loss coefficients around the Raman limit); (C) every Multiband_amplifier node of '
+                'auto-designed two-band lines (C and L single-band models grouped into 2-6 multiband models sharing '
+                'members, restrictions at node / ROADM level): permitted models, preselection, per band picks, designed '
+                'type. A case is non-trivial when the '
                 'dict has >= 2 candidates; distinct by content hash; margins within 1e-9 of a threshold are not judged')
     cases = []
     for f in sorted(glob.glob(os.path.join(common.VERIF, 'corpus', 'C10', '*.json'))):
@@ -466,6 +795,7 @@ def run(ctx):
         cases += [gen_case_a(rng) for _ in range(ctx.scale(260, 3000))]
         from . import c09
         cases += [dict(c09.gen_case(rng, for_c10=True), kind='B') for _ in range(ctx.scale(110, 1000))]
+        cases += [gen_case_c(rng) for _ in range(ctx.scale(60, 800))]
     terms, meta = [], []
     for c in cases:
         if c.get('kind', 'A') == 'A':
@@ -486,6 +816,23 @@ def run(ctx):
                          len(rec['views']) >= 2)
             terms.append(term_a(lib_views, obs))
             meta.append(('A', obs, None))
+        elif c.get('kind') == 'C':
+            try:
+                built, obs, status = drive_c(c)
+            except Exception as e:
+                ctx.count('C_not_built:' + type(e).__name__)
+                continue
+            ctx.count('C_networks')
+            ctx.count('C_design_' + status)
+            views = [amp_view(n, a) for n, a in built['equipment']['Edfa'].items()]
+            for rec in obs:
+                rec['pv'] = neigh_view(rec.pop('prev'), built['elem_restr'])
+                rec['nv'] = neigh_view(rec.pop('next'), built['elem_restr'])
+                ctx.count('C_nodes')
+                ctx.case({'uid': rec['uid'], 'net': c.get('seed'), 'kind': 'C'}, True)
+            if obs:
+                terms.append(term_c(built, c, obs, views))
+                meta.append(('C', obs, (built, strip(c), views, status)))
         else:
             try:
                 built, obs, status = drive_b(c)
@@ -524,17 +871,22 @@ def run(ctx):
                     ctx.corr_break('corr:Select.select_edfa', d, case, impl=r1['out'], model=part)
                 ctx.count('A_outcome_' + ('error' if isinstance(r1['out'], str) else 'selected'))
             continue
+        if kind == 'C':
+            built, cj, views, status = extra
+            parts = line.split('~')
+            for i, (r1, part) in enumerate(zip(rec, parts)):
+                judge_c(ctx, r1, part, built, cj, views, status, i == len(rec) - 1)
+            continue
         views, roadm_lib = extra
         for r1, part in zip(rec, line.split(';')):
             judge_b(ctx, r1, part, views, roadm_lib)
     ctx.assumptions += [
         'the noise figure of every candidate at the required gain is an input of the model, computed with '
         'gnpy.core.network.edfa_nf (the NF model is property C04); -inf (openroadm_booster) is represented by -1e6',
-        'multiband amplifiers (get_node_restrictions multiband branch, preselect_multiband_amps) are not modelled: '
-        'the generated networks are single band; multiband groupings appear in the libraries only as entries the '
-        'single-band selection must ignore',
+        'multiband nodes: the per band gain/power targets (compute_gain_power_and_tilt_target, C09) are inputs recorded '
+        'from the implementation; nodes with an imposed multiband type_variety are not generated',
     ]
-    return common.finish(ctx)
+    return common.finish(ctx, MATCHERS)
 
 
 def judge_b(ctx, rec, line, views, roadm_lib):
